@@ -683,7 +683,13 @@ pub fn call(env: &mut Env, c: &Value) -> Value {
             match env.get_mut(s(c, "obj")).unwrap_or_else(|| panic!("harness: no timer")) {
                 Slot::Timer(t) => {
                     let t = match t.take() { Some(t) => t, None => return json!({"ok": "consumed"}) };
+                    let unwinding = c.get("unwinding").and_then(|x| x.as_bool()).unwrap_or(false);
                     let f = move || -> f64 {
+                        if unwinding {
+                            // the timer is dropped by the stack unwinding of a panic that the process survives
+                            let _ = std::panic::catch_unwind(std::panic::AssertUnwindSafe(move || { let _owned = t; std::panic::panic_any(0u8); }));
+                            return -1.0;
+                        }
                         match opn.as_str() {
                             "observe_duration" => { t.observe_duration(); -1.0 }
                             "stop_and_record" => t.stop_and_record(),
@@ -696,7 +702,12 @@ pub fn call(env: &mut Env, c: &Value) -> Value {
                 }
                 Slot::LTimer(t) => {
                     let t = match t.take() { Some(t) => t, None => return json!({"ok": "consumed"}) };
+                    let unwinding = c.get("unwinding").and_then(|x| x.as_bool()).unwrap_or(false);
                     let f = move || -> f64 {
+                        if unwinding {
+                            let _ = std::panic::catch_unwind(std::panic::AssertUnwindSafe(move || { let _owned = t; std::panic::panic_any(0u8); }));
+                            return -1.0;
+                        }
                         match opn.as_str() {
                             "observe_duration" => { t.observe_duration(); -1.0 }
                             "stop_and_record" => t.stop_and_record(),
@@ -712,9 +723,11 @@ pub fn call(env: &mut Env, c: &Value) -> Value {
         }
         "observe_closure" => {
             let ret = c.get("ret").and_then(|x| x.as_i64()).unwrap_or(7);
+            let re = c.get("reenter").and_then(|x| x.as_bool()).unwrap_or(false);
             let r = match env.get(s(c, "of")).unwrap_or_else(|| panic!("harness: no slot")) {
-                Slot::Hist(h) => h.observe_closure_duration(|| ret),
-                Slot::LHist(h) => h.observe_closure_duration(|| ret),
+                // "reenter": the timed section itself observes into the same histogram (a nested timed section)
+                Slot::Hist(h) => h.observe_closure_duration(|| { if re { h.observe_closure_duration(|| ()); } ret }),
+                Slot::LHist(h) => h.observe_closure_duration(|| { if re { h.observe_closure_duration(|| ()); } ret }),
                 _ => panic!("harness: closure of what"),
             };
             okv(json!(r))
